@@ -180,7 +180,25 @@ func (x *Exec) sel(arr, idx *smt.Term, sort string) *smt.Term {
 	if arr.Op == "store" && x.knownDistinct(arr.Args[1], idx) {
 		return x.sel(arr.Args[0], idx, sort)
 	}
+	if arr.Op == "ite" && len(arr.Args) == 3 && iteDepth(arr) <= 6 {
+		// select distributes over a merge of two states: the branches then offer
+		// ground select terms for quantifier instantiation
+		return x.b.Ite(arr.Args[0], x.sel(arr.Args[1], idx, sort), x.sel(arr.Args[2], idx, sort))
+	}
 	return x.b.App("select", sort, arr, idx)
+}
+
+func iteDepth(t *smt.Term) int {
+	d := 0
+	for t.Op == "ite" && len(t.Args) == 3 {
+		d++
+		if t.Args[2].Op == "ite" {
+			t = t.Args[2]
+		} else {
+			t = t.Args[1]
+		}
+	}
+	return d
 }
 
 func (x *Exec) sto(arr, idx, v *smt.Term) *smt.Term {
